@@ -44,6 +44,21 @@ pub fn probe(func: &str) -> bool {
     for vars in [vec![], vec!["x"], vec!["x", "y"], vec!["x", "x"], vec!["x", "y", "x"]] {
         let mut uniq: Vec<&str> = Vec::new();
         for v in &vars { if !uniq.contains(v) { uniq.push(v); } }
+        // the infallible constructors: one unit sensitivity per DISTINCT name, and (second order) a square zero matrix of that size
+        {
+            let r1 = guard(|| { let d = Dual::new(2.0, names(&vars)); (d.vars().len(), d.dual().to_vec()) });
+            let want1 = (uniq.len(), vec![1.0_f64; uniq.len()]);
+            if r1 != Some(want1.clone()) {
+                report("probe", func, &format!("Dual::new(2.0, {:?}): (number of names, sensitivities)", vars), &format!("{:?}", r1), &format!("{:?}", want1), false);
+                return true;
+            }
+            let r2 = guard(|| { let d = Dual2::new(2.0, names(&vars)); (d.vars().len(), d.dual().to_vec(), d.dual2().dim(), d.dual2().iter().all(|x| *x == 0.0)) });
+            let want2 = (uniq.len(), vec![1.0_f64; uniq.len()], (uniq.len(), uniq.len()), true);
+            if r2 != Some(want2.clone()) {
+                report("probe", func, &format!("Dual2::new(2.0, {:?}): (number of names, sensitivities, shape of the second-derivative matrix, all zero)", vars), &format!("{:?}", r2), &format!("{:?}", want2), false);
+                return true;
+            }
+        }
         for glen in 0..4usize {
             let g: Vec<f64> = (0..glen).map(|i| 1.0 + i as f64).collect();
             let want_ok = glen == 0 || glen == uniq.len();
